@@ -1,3 +1,614 @@
+(* DagProofs.v -- lemmas about the model of dawgie.pl.dag.Construct (C09). *)
 From DV Require Import Model.Dag.
-From Coq Require Import List Arith Bool Lia.
+From Coq Require Import List Arith Bool Lia Relations.
 Import ListNotations.
+
+(* ------------------------------------------------------------ 0. basics *)
+Lemma name_eqb_eq a b : name_eqb a b = true <-> a = b.
+Proof.
+  revert b. induction a as [|x a IH]; destruct b as [|y b]; simpl; split; intro H;
+    try discriminate; try reflexivity.
+  - apply andb_true_iff in H as [H1 H2]. apply Nat.eqb_eq in H1. apply IH in H2. congruence.
+  - inversion H; subst. rewrite Nat.eqb_refl. simpl. apply IH. reflexivity.
+Qed.
+Lemma name_eqb_refl a : name_eqb a a = true.
+Proof. apply name_eqb_eq. reflexivity. Qed.
+Lemma name_eqb_neq a b : name_eqb a b = false <-> a <> b.
+Proof.
+  split; intro H.
+  - intro E. apply name_eqb_eq in E. congruence.
+  - destruct (name_eqb a b) eqn:E; [apply name_eqb_eq in E; contradiction | reflexivity].
+Qed.
+Lemma pair_eqb_eq a b : pair_eqb a b = true <-> a = b.
+Proof.
+  destruct a as [a1 a2], b as [b1 b2]. unfold pair_eqb. simpl.
+  rewrite andb_true_iff, !name_eqb_eq. split; [intros [-> ->]; reflexivity | intro H; inversion H; auto].
+Qed.
+Lemma mem_In x l : mem x l = true <-> In x l.
+Proof.
+  unfold mem. rewrite existsb_exists. split.
+  - intros [y [Hy E]]. apply name_eqb_eq in E. subst. exact Hy.
+  - intro H. exists x. split; [exact H | apply name_eqb_refl].
+Qed.
+Lemma mem_false x l : mem x l = false <-> ~ In x l.
+Proof. rewrite <- mem_In. destruct (mem x l); split; congruence. Qed.
+Lemma memp_In x l : memp x l = true <-> In x l.
+Proof.
+  unfold memp. rewrite existsb_exists. split.
+  - intros [y [Hy E]]. apply pair_eqb_eq in E. subst. exact Hy.
+  - intro H. exists x. split; [exact H | apply pair_eqb_eq; reflexivity].
+Qed.
+
+Lemma In_add_uniq l x y : In y (add_uniq l x) <-> In y l \/ y = x.
+Proof.
+  unfold add_uniq. destruct (mem x l) eqn:E.
+  - apply mem_In in E. split; [auto | intros [H | ->]; auto].
+  - rewrite in_app_iff. simpl. intuition.
+Qed.
+Lemma In_adds xs : forall l y, In y (adds l xs) <-> In y l \/ In y xs.
+Proof.
+  unfold adds. induction xs as [|x xs IH]; intros l y; simpl.
+  - intuition.
+  - rewrite IH, In_add_uniq. intuition.
+Qed.
+Lemma In_addp_uniq l x y : In y (addp_uniq l x) <-> In y l \/ y = x.
+Proof.
+  unfold addp_uniq. destruct (memp x l) eqn:E.
+  - apply memp_In in E. split; [auto | intros [H | ->]; auto].
+  - rewrite in_app_iff. simpl. intuition.
+Qed.
+Lemma In_addps xs : forall l y, In y (addps l xs) <-> In y l \/ In y xs.
+Proof.
+  unfold addps. induction xs as [|x xs IH]; intros l y; simpl.
+  - intuition.
+  - rewrite IH, In_addp_uniq. intuition.
+Qed.
+Lemma NoDup_snoc (l : list name) x : NoDup l -> ~ In x l -> NoDup (l ++ [x]).
+Proof.
+  induction l as [|a l IH]; simpl; intros H Hx.
+  - constructor; [intros []|constructor].
+  - inversion H; subst. constructor.
+    + rewrite in_app_iff. simpl. intros [Hi | [E | []]]; [contradiction | subst; apply Hx; left; reflexivity].
+    + apply IH; [assumption | intro Hi; apply Hx; right; exact Hi].
+Qed.
+Lemma NoDup_add_uniq l x : NoDup l -> NoDup (add_uniq l x).
+Proof.
+  intro H. unfold add_uniq. destruct (mem x l) eqn:E; [exact H|].
+  apply mem_false in E. apply NoDup_snoc; assumption.
+Qed.
+Lemma NoDup_adds xs : forall l, NoDup l -> NoDup (adds l xs).
+Proof.
+  unfold adds. induction xs as [|x xs IH]; intros l H; simpl; [exact H|].
+  apply IH. apply NoDup_add_uniq. exact H.
+Qed.
+Lemma In_reorder o own x : In x (reorder o own) <-> In x own.
+Proof.
+  unfold reorder. rewrite in_app_iff, !filter_In, In_adds. simpl.
+  rewrite mem_In. split.
+  - intros [[_ H] | [H _]]; exact H.
+  - intro H. destruct (mem x o) eqn:E.
+    + left. apply mem_In in E. auto.
+    + right. auto.
+Qed.
+
+(* fold_left of a monotone "add" *)
+Lemma fold_left_In_gen {A B} (f : list B -> A -> list B) (g : A -> B -> Prop) :
+  (forall l a y, In y (f l a) <-> In y l \/ g a y) ->
+  forall xs l y, In y (fold_left f xs l) <-> In y l \/ exists a, In a xs /\ g a y.
+Proof.
+  intros Hf xs. induction xs as [|a xs IH]; intros l y; simpl.
+  - split; [auto | intros [H | [a [[] _]]]; exact H].
+  - rewrite IH, Hf. split.
+    + intros [[H | H] | [a' [Ha Hg]]]; eauto.
+    + intros [H | [a' [[-> | Ha] Hg]]]; eauto.
+Qed.
+
+(* ------------------------------------------- 1. _build_tree: membership *)
+Lemma In_edges evs p c :
+  In (p, c) (edges evs) <-> exists ev, In ev evs /\ ve_fn ev = c /\ In p (ve_ps ev).
+Proof.
+  unfold edges.
+  rewrite (fold_left_In_gen _ (fun ev y => In y (map (fun p => (p, ve_fn ev)) (ve_ps ev)))).
+  - simpl. split.
+    + intros [[] | [ev [Hev H]]]. apply in_map_iff in H as [p' [E Hp]]. inversion E; subst. eauto.
+    + intros [ev [Hev [E Hp]]]. right. exists ev. split; [exact Hev|].
+      apply in_map_iff. exists p. subst. auto.
+  - intros. apply In_addps.
+Qed.
+Lemma In_flat_order evs n :
+  In n (flat_order evs) <-> exists ev, In ev evs /\ (ve_fn ev = n \/ In n (ve_ps ev)).
+Proof.
+  unfold flat_order.
+  rewrite (fold_left_In_gen _ (fun ev y => y = ve_fn ev \/ In y (ve_ps ev))).
+  - simpl. split.
+    + intros [[] | [ev [Hev [H | H]]]]; eauto.
+    + intros [ev [Hev [H | H]]]; right; exists ev; auto.
+  - intros. rewrite In_adds, In_add_uniq. tauto.
+Qed.
+Lemma In_roots evs n :
+  In n (roots evs) <-> exists ev, In ev evs /\ ve_fn ev = n /\ ve_root ev = true.
+Proof.
+  unfold roots.
+  rewrite (fold_left_In_gen _ (fun ev y => y = ve_fn ev /\ ve_root ev = true)).
+  - simpl. split.
+    + intros [[] | [ev [Hev [H1 H2]]]]; eauto.
+    + intros [ev [Hev [H1 H2]]]; right; exists ev; auto.
+  - intros l a y. destruct (ve_root a).
+    + rewrite In_add_uniq. intuition.
+    + intuition. discriminate.
+Qed.
+Lemma In_events e ev :
+  In ev (events e) <->
+  exists b, In b (build_order e) /\ In (ve_fn ev) (b_own b) /\
+            ve_root ev = is_nil (a_deps (b_alg b)) /\ ve_ps ev = b_ins e b.
+Proof.
+  unfold events, alg_events. rewrite in_flat_map. split.
+  - intros [b [Hb H]]. apply in_map_iff in H as [fn [E Hfn]]. subst ev. simpl. eauto.
+  - intros [b [Hb [H1 [H2 H3]]]]. exists b. split; [exact Hb|].
+    apply in_map_iff. exists (ve_fn ev). split; [|exact H1].
+    destruct ev; simpl in *; subst; reflexivity.
+Qed.
+Lemma In_kids E p c : In c (kids E p) <-> In (p, c) E.
+Proof.
+  unfold kids. rewrite in_map_iff. split.
+  - intros [[p' c'] [E1 H]]. simpl in *. subst. apply filter_In in H as [H E2].
+    simpl in E2. apply name_eqb_eq in E2. subst. exact H.
+  - intro H. exists (p, c). split; [reflexivity|]. apply filter_In. split; [exact H|].
+    simpl. apply name_eqb_refl.
+Qed.
+Lemma In_parents_of P c p : In p (parents_of P c) <-> In (c, p) P.
+Proof. apply In_kids. Qed.
+
+(* value-level edges: exactly the declared (expanded) inputs *)
+Definition vedge (e : engine) (p c : name) : Prop :=
+  exists b, In b (build_order e) /\ In c (b_own b) /\ In p (b_ins e b).
+Lemma vedge_iff e p c : In c (kids (edges (events e)) p) <-> vedge e p c.
+Proof.
+  rewrite In_kids, In_edges. unfold vedge. split.
+  - intros [ev [Hev [E Hp]]]. apply In_events in Hev as [b [Hb [H1 [_ H3]]]].
+    exists b. subst. rewrite <- H3. auto.
+  - intros [b [Hb [Hc Hp]]].
+    exists (mkEv c (is_nil (a_deps (b_alg b))) (b_ins e b)). simpl. repeat split; auto.
+    apply In_events. exists b. simpl. auto.
+Qed.
+Definition owned (e : engine) (n : name) : Prop := exists b, In b (build_order e) /\ In n (b_own b).
+Lemma In_flat e n :
+  In n (flat_order (events e)) <-> owned e n \/ exists c, vedge e n c.
+Proof.
+  rewrite In_flat_order. split.
+  - intros [ev [Hev H]]. apply In_events in Hev as [b [Hb [H1 [_ H3]]]]. destruct H as [H | H].
+    + left. exists b. subst. auto.
+    + right. exists (ve_fn ev), b. rewrite <- H3. auto.
+  - intros [[b [Hb Hn]] | [c [b [Hb [Hc Hp]]]]].
+    + exists (mkEv n (is_nil (a_deps (b_alg b))) (b_ins e b)). simpl. split; [|auto].
+      apply In_events. exists b. simpl. auto.
+    + exists (mkEv c (is_nil (a_deps (b_alg b))) (b_ins e b)). simpl. split; [|auto].
+      apply In_events. exists b. simpl. auto.
+Qed.
+Lemma In_roots_e e n :
+  In n (roots (events e)) <-> exists b, In b (build_order e) /\ In n (b_own b) /\ a_deps (b_alg b) = [].
+Proof.
+  rewrite In_roots. split.
+  - intros [ev [Hev [E Hr]]]. apply In_events in Hev as [b [Hb [H1 [H2 _]]]].
+    exists b. subst. repeat split; auto. rewrite Hr in H2. destruct (a_deps (b_alg b)); [reflexivity | discriminate].
+  - intros [b [Hb [Hn Hd]]]. exists (mkEv n true (b_ins e b)). simpl. repeat split.
+    apply In_events. exists b. simpl. rewrite Hd. auto.
+Qed.
+
+Lemma own_tag pkg a n : In n (own pkg a) -> trim 2 n = [pkg; a_name a].
+Proof.
+  unfold own, sv_values. intro H. apply in_flat_map in H as [s [_ H]].
+  apply in_map_iff in H as [v [E _]]. subst. reflexivity.
+Qed.
+Lemma b_own_tag b n : In n (b_own b) -> trim 2 n = b_tag b.
+Proof. apply own_tag. Qed.
+Lemma own_len pkg a n : In n (own pkg a) -> length n = 4.
+Proof.
+  unfold own, sv_values. intro H. apply in_flat_map in H as [s [_ H]].
+  apply in_map_iff in H as [v [E _]]. subst. reflexivity.
+Qed.
+
+(* --------------------------------------------------- 2. _parents (DFS) *)
+Section ParDfs.
+  Variable E : list (name * name).
+  Variable rv : name -> nat.
+  Variable N : nat.
+  Definition xedge (p c : name) : Prop := In c (xkids E p).
+  Hypothesis Hmono : forall p c, xedge p c -> rv p < rv c.
+  Hypothesis Hbound : forall p c, xedge p c -> rv c < N.
+
+  Definition preach (rts : list name) (n : name) : Prop :=
+    exists r, In r rts /\ clos_refl_trans name xedge r n.
+
+  Definition pstep (f : nat) (st : pst) (node : name) : pst :=
+    let known := add_uniq (fst st) node in
+    let ch := xkids E node in
+    let par := addps (snd st) (map (fun c => (c, node)) ch) in
+    par_dfs E f (filter (fun c => negb (mem c known)) ch) (known, par).
+  Lemma par_dfs_S f nodes st : par_dfs E (S f) nodes st = fold_left (pstep f) nodes st.
+  Proof. reflexivity. Qed.
+
+  (* what a call guarantees *)
+  Definition ppost (nodes : list name) (st st' : pst) : Prop :=
+    (forall k, In k (fst st) -> In k (fst st')) /\
+    (forall m, In m (snd st) -> In m (snd st')) /\
+    (forall n, In n nodes -> In n (fst st')) /\
+    (forall k, In k (fst st') -> In k (fst st) \/ forall c, xedge k c -> In c (fst st')) /\
+    ((forall k c, In k (fst st) -> xedge k c -> In (c, k) (snd st)) ->
+     (forall k c, In k (fst st') -> xedge k c -> In (c, k) (snd st'))) /\
+    (forall k, In k (fst st') -> In k (fst st) \/ preach nodes k) /\
+    (forall c p, In (c, p) (snd st') -> In (c, p) (snd st) \/ (In p (fst st') /\ xedge p c)).
+
+  Lemma ppost_nil st : ppost [] st st.
+  Proof. unfold ppost. repeat split; auto. intros n []. Qed.
+
+  Lemma ppost_cons n ns st st1 st2 :
+    ppost [n] st st1 -> ppost ns st1 st2 -> ppost (n :: ns) st st2.
+  Proof.
+    intros (A1 & A2 & A3 & A4 & A5 & A6 & A7) (B1 & B2 & B3 & B4 & B5 & B6 & B7).
+    unfold ppost. repeat split.
+    - auto.
+    - auto.
+    - intros x [<- | Hx]; [apply B1, A3; left; reflexivity | apply B3; exact Hx].
+    - intros k Hk. destruct (B4 k Hk) as [H | H]; [|right; exact H].
+      destruct (A4 k H) as [H' | H']; [left; exact H' | right; intros c Hc; apply B1, H'; exact Hc].
+    - auto.
+    - intros k Hk. destruct (B6 k Hk) as [H | [r [Hr Hp]]].
+      + destruct (A6 k H) as [H' | [r [Hr Hp]]]; [left; exact H' | right].
+        exists r. split; [|exact Hp]. destruct Hr as [<- | []]. left. reflexivity.
+      + right. exists r. split; [right; exact Hr | exact Hp].
+    - intros c p H. destruct (B7 c p H) as [H' | H']; [|right; exact H'].
+      destruct (A7 c p H') as [H'' | [H1 H2]]; [left; exact H'' | right; split; [apply B1; exact H1 | exact H2]].
+  Qed.
+
+  Lemma ppost_fold f : 
+    (forall n st, rv n < N -> N <= rv n + S f -> ppost [n] st (pstep f st n)) ->
+    forall nodes st, (forall n, In n nodes -> rv n < N /\ N <= rv n + S f) ->
+                     ppost nodes st (fold_left (pstep f) nodes st).
+  Proof.
+    intros Hstep nodes. induction nodes as [|n ns IH]; intros st Hn; simpl.
+    - apply ppost_nil.
+    - eapply ppost_cons.
+      + apply Hstep; apply Hn; left; reflexivity.
+      + apply IH. intros m Hm. apply Hn. right. exact Hm.
+  Qed.
+
+  Lemma par_dfs_post : forall f nodes st,
+    (forall n, In n nodes -> rv n < N /\ N <= rv n + f) -> ppost nodes st (par_dfs E f nodes st).
+  Proof.
+    induction f as [|f IH]; intros nodes st Hn.
+    - destruct nodes as [|n ns]; [apply ppost_nil|].
+      destruct (Hn n (or_introl eq_refl)). lia.
+    - rewrite par_dfs_S. apply ppost_fold; [|exact Hn].
+      clear nodes st Hn. intros n st Hlt Hge. unfold pstep.
+      set (known := add_uniq (fst st) n).
+      set (ch := xkids E n).
+      set (par := addps (snd st) (map (fun c => (c, n)) ch)).
+      set (ch' := filter (fun c => negb (mem c known)) ch).
+      assert (Hch : forall c, In c ch' -> rv c < N /\ N <= rv c + f).
+      { intros c Hc. apply filter_In in Hc as [Hc _]. split.
+        - eapply Hbound. exact Hc.
+        - apply Hmono in Hc. lia. }
+      specialize (IH ch' (known, par) Hch).
+      destruct IH as (B1 & B2 & B3 & B4 & B5 & B6 & B7). simpl in *.
+      assert (Hk : forall k, In k known <-> In k (fst st) \/ k = n) by (intro; apply In_add_uniq).
+      assert (Hp : forall m, In m par <-> In m (snd st) \/ In m (map (fun c => (c, n)) ch))
+        by (intro; apply In_addps).
+      unfold ppost. repeat split.
+      + intros k H. apply B1, Hk. left. exact H.
+      + intros m H. apply B2, Hp. left. exact H.
+      + intros x [<- | []]. apply B1, Hk. right. reflexivity.
+      + intros k H. destruct (B4 k H) as [H' | H']; [|right; exact H'].
+        apply Hk in H' as [H' | ->]; [left; exact H'|]. right. intros c Hc.
+        destruct (mem c known) eqn:Em.
+        * apply B1. apply mem_In. exact Em.
+        * apply B3. apply filter_In. split; [exact Hc | rewrite Em; reflexivity].
+      + intros Hinv. apply B5. intros k c Hkk Hc. apply Hp. apply Hk in Hkk as [Hkk | ->].
+        * left. apply Hinv; assumption.
+        * right. apply in_map_iff. exists c. split; [reflexivity | exact Hc].
+      + intros k H. destruct (B6 k H) as [H' | [r [Hr Hrp]]].
+        * apply Hk in H' as [H' | ->]; [left; exact H' | right].
+          exists n. split; [left; reflexivity | apply rt_refl].
+        * right. exists n. split; [left; reflexivity|].
+          apply filter_In in Hr as [Hr _].
+          eapply rt_trans; [apply rt_step; exact Hr | exact Hrp].
+      + intros c p H. destruct (B7 c p H) as [H' | H']; [|right; exact H'].
+        apply Hp in H' as [H' | H']; [left; exact H' | right].
+        apply in_map_iff in H' as [c' [E' Hc']]. inversion E'; subst. split; [|exact Hc'].
+        apply B1, Hk. right. reflexivity.
+  Qed.
+
+  (* the top-level call *)
+  Theorem par_dfs_spec fuel rts :
+    (forall r, In r rts -> rv r < N /\ N <= rv r + fuel) ->
+    forall c p, In (c, p) (snd (par_dfs E fuel rts ([], []))) <-> preach rts p /\ xedge p c.
+  Proof.
+    intros Hr c p. pose proof (par_dfs_post fuel rts ([], []) Hr) as (B1 & B2 & B3 & B4 & B5 & B6 & B7).
+    simpl in *. split.
+    - intro H. destruct (B7 c p H) as [[] | [Hk Hx]]. split; [|exact Hx].
+      destruct (B6 p Hk) as [[] | H']. exact H'.
+    - intros [[r [Hrr Hp]] Hx]. apply B5; [intros k c' [] | | exact Hx].
+      assert (Hk : In r (fst (par_dfs E fuel rts ([], [])))) by (apply B3; exact Hrr).
+      clear Hrr. apply clos_rt_rt1n in Hp. induction Hp as [|x y z Hxy Hyz IHp]; [exact Hk|].
+      apply IHp; [exact Hx|]. destruct (B4 x Hk) as [[] | Hc]. apply Hc. exact Hxy.
+  Qed.
+End ParDfs.
+
+(* ------------------------------------------------- 3. _ancestry (closure) *)
+Lemma ct_last {A} (R : relation A) a p :
+  clos_trans A R a p -> R a p \/ exists g, clos_trans A R a g /\ R g p.
+Proof.
+  intro H. apply clos_trans_tn1 in H. destruct H as [p H | p q Hpq Hap].
+  - left. exact H.
+  - right. exists p. split; [apply clos_tn1_trans; exact Hap | exact Hpq].
+Qed.
+Section Ancestry.
+  Variable P : list (name * name).          (* (child, parent) *)
+  Variable rv : name -> nat.
+  Definition pedge (a n : name) : Prop := In (n, a) P.
+  Hypothesis Hdec : forall a n, pedge a n -> rv a < rv n.
+
+  Lemma In_grands ps g :
+    In g (fold_left (fun g p => adds g (parents_of P p)) ps []) <-> exists p, In p ps /\ pedge g p.
+  Proof.
+    rewrite (fold_left_In_gen _ (fun p y => In y (parents_of P p))).
+    - simpl. split.
+      + intros [[] | [p [Hp H]]]. exists p. split; [exact Hp | apply In_parents_of; exact H].
+      + intros [p [Hp H]]. right. exists p. split; [exact Hp | apply In_parents_of; exact H].
+    - intros. apply In_adds.
+  Qed.
+
+  Lemma anc_loop_spec nm : forall f H Ps,
+    (forall p, In p Ps -> rv p < f /\ rv p < rv nm) ->
+    forall a, In a (anc_loop P f nm H Ps) <-> In a H \/ exists p, In p Ps /\ clos_trans name pedge a p.
+  Proof.
+    induction f as [|f IH]; intros H Ps HPs a.
+    - simpl. split; [auto|]. intros [Ha | [p [Hp _]]]; [exact Ha|]. destruct (HPs p Hp). lia.
+    - simpl. destruct Ps as [|p0 Ps0] eqn:EPs.
+      + split; [auto | intros [Ha | [p [[] _]]]; exact Ha].
+      + rewrite <- EPs in *. clear EPs p0 Ps0.
+        set (flt := filter (fun p => negb (name_eqb p nm)) Ps).
+        assert (Hflt : forall p, In p flt <-> In p Ps).
+        { intro p. unfold flt. rewrite filter_In. split; [tauto|]. intro Hp. split; [exact Hp|].
+          destruct (name_eqb p nm) eqn:Ee; [|reflexivity]. apply name_eqb_eq in Ee. subst.
+          destruct (HPs nm Hp). lia. }
+        set (grands := fold_left (fun g p => adds g (parents_of P p)) flt []).
+        assert (Hg : forall g, In g grands <-> exists p, In p Ps /\ pedge g p).
+        { intro g. unfold grands. rewrite In_grands. split; intros [p [Hp Hgp]]; exists p; split; auto; apply Hflt; exact Hp. }
+        rewrite IH.
+        * rewrite In_adds. split.
+          -- intros [[Ha | Ha] | [g [Hgg Hc]]]; [left; exact Ha | right | right].
+             ++ apply Hg in Ha as [p [Hp Hap]]. exists p. split; [exact Hp | apply t_step; exact Hap].
+             ++ apply Hg in Hgg as [p [Hp Hgp]]. exists p. split; [exact Hp|].
+                eapply t_trans; [exact Hc | apply t_step; exact Hgp].
+          -- intros [Ha | [p [Hp Hc]]]; [left; left; exact Ha|].
+             apply ct_last in Hc as [Hap | [g [Hag Hgp]]].
+             ++ left. right. apply Hg. exists p. auto.
+             ++ right. exists g. split; [apply Hg; exists p; auto | exact Hag].
+        * intros g Hgg. apply Hg in Hgg as [p [Hp Hgp]]. apply Hdec in Hgp. destruct (HPs p Hp). lia.
+  Qed.
+
+  Theorem ancestry_spec fuel nm : rv nm <= fuel ->
+    forall a, In a (ancestry P fuel nm) <-> clos_trans name pedge a nm.
+  Proof.
+    intros Hf a. unfold ancestry. rewrite anc_loop_spec.
+    - rewrite In_adds. simpl. split.
+      + intros [[[] | Ha] | [p [Hp Hc]]].
+        * apply t_step. apply In_parents_of. exact Ha.
+        * rewrite In_adds in Hp. destruct Hp as [[] | Hp].
+          eapply t_trans; [exact Hc | apply t_step; apply In_parents_of; exact Hp].
+      + intro Hc. apply ct_last in Hc as [Hap | [g [Hag Hgp]]].
+        * left. right. apply In_parents_of. exact Hap.
+        * right. exists g. split; [rewrite In_adds; right; apply In_parents_of; exact Hgp | exact Hag].
+    - intros p Hp. rewrite In_adds in Hp. destruct Hp as [[] | Hp].
+      apply In_parents_of in Hp. apply Hdec in Hp. lia.
+  Qed.
+End Ancestry.
+
+(* ---------------------------------------------------- 4. Node.trim (DFS) *)
+Lemma filter_len_le {A} (f g : A -> bool) l :
+  (forall u, In u l -> f u = true -> g u = true) -> length (filter f l) <= length (filter g l).
+Proof.
+  induction l as [|a l IH]; intro H; simpl; [lia|].
+  assert (IH' : length (filter f l) <= length (filter g l)) by (apply IH; intros; apply H; [right|]; assumption).
+  destruct (f a) eqn:Ef.
+  - rewrite (H a (or_introl eq_refl) Ef). simpl. lia.
+  - destruct (g a); simpl; lia.
+Qed.
+Lemma filter_len_lt {A} (f g : A -> bool) l v :
+  (forall u, In u l -> f u = true -> g u = true) -> In v l -> f v = false -> g v = true ->
+  length (filter f l) < length (filter g l).
+Proof.
+  induction l as [|a l IH]; intros H Hv Hf Hg; simpl; [destruct Hv|].
+  assert (Hl : forall u, In u l -> f u = true -> g u = true) by (intros; apply H; [right|]; assumption).
+  destruct Hv as [-> | Hv].
+  - rewrite Hf, Hg. simpl. pose proof (filter_len_le f g l Hl). lia.
+  - specialize (IH Hl Hv Hf Hg). destruct (f a) eqn:Ef.
+    + rewrite (H a (or_introl eq_refl) Ef). simpl. lia.
+    + destruct (g a); simpl; lia.
+Qed.
+
+Lemma filter_len_all {A} (f : A -> bool) l : length (filter f l) <= length l.
+Proof. induction l as [|a l IH]; simpl; [lia|]. destruct (f a); simpl; lia. Qed.
+
+Section TrimDfs.
+  Variables K FB : name -> list name.
+  Variable L : nat.
+  Variable U : list name.
+  Hypothesis UK : forall v c, In v U -> In c (K v) -> In c U.
+  Hypothesis UF : forall v c, In v U -> In c (FB v) -> In c U.
+
+  Definition sedge (a b : name) : Prop := In b (FB a) \/ In b (K a).
+  Definition unvis (vis : list name) : nat := length (filter (fun u => negb (mem u vis)) U).
+  Lemma unvis_mono vis vis' : (forall k, In k vis -> In k vis') -> unvis vis' <= unvis vis.
+  Proof.
+    intro H. apply filter_len_le. intros u _ Hu. apply negb_true_iff in Hu. apply negb_true_iff.
+    apply mem_false. apply mem_false in Hu. intro Hi. apply Hu. apply H. exact Hi.
+  Qed.
+  Lemma unvis_lt vis v : In v U -> ~ In v vis -> unvis (vis ++ [v]) < unvis vis.
+  Proof.
+    intros HU Hv. apply filter_len_lt with (v := v).
+    - intros u _ Hu. apply negb_true_iff in Hu. apply negb_true_iff.
+      apply mem_false. apply mem_false in Hu. intro Hi. apply Hu. apply in_or_app. left. exact Hi.
+    - exact HU.
+    - apply negb_false_iff. apply mem_In. apply in_or_app. right. left. reflexivity.
+    - apply negb_true_iff. apply mem_false. exact Hv.
+  Qed.
+
+  Definition complete (k : name) (s : tst) : Prop :=
+    (forall x, In x (FB k) -> In x (fst s) /\ In (EFb (trim L k) (trim L x)) (snd s)) /\
+    (forall c, In c (K k) -> In c (fst s) /\ In (EKid (trim L k) (trim L c)) (snd s)).
+  Definition sound_ev (vis : list name) (ev : tev) : Prop :=
+    exists k, In k vis /\
+      ((exists x, In x (FB k) /\ ev = EFb (trim L k) (trim L x)) \/
+       (exists c, In c (K k) /\ ev = EKid (trim L k) (trim L c))).
+  Definition mono (s s' : tst) : Prop :=
+    (forall k, In k (fst s) -> In k (fst s')) /\ (forall ev, In ev (snd s) -> In ev (snd s')).
+  Lemma complete_mono k s s' : mono s s' -> complete k s -> complete k s'.
+  Proof.
+    intros [M1 M2] [C1 C2]. split; intros x Hx; [destruct (C1 x Hx) | destruct (C2 x Hx)]; split; auto.
+  Qed.
+  Lemma sound_mono vis vis' ev : (forall k, In k vis -> In k vis') -> sound_ev vis ev -> sound_ev vis' ev.
+  Proof. intros M [k [Hk H]]. exists k. split; [apply M; exact Hk | exact H]. Qed.
+
+  Definition tpost (v : name) (s s' : tst) : Prop :=
+    mono s s' /\ In v (fst s') /\
+    (forall k, In k (fst s') -> In k (fst s) \/ complete k s') /\
+    (forall k, In k (fst s') -> In k (fst s) \/ clos_refl_trans name sedge v k) /\
+    (forall ev, In ev (snd s') -> In ev (snd s) \/ sound_ev (fst s') ev).
+
+  Definition tfold (mk : name -> tev) (f : nat) (xs : list name) (s : tst) : tst :=
+    fold_left (fun s x => let s' := trim_dfs K FB L f x s in (fst s', snd s' ++ [mk x])) xs s.
+  Definition fpost (mk : name -> tev) (xs : list name) (s s' : tst) : Prop :=
+    mono s s' /\
+    (forall x, In x xs -> In x (fst s') /\ In (mk x) (snd s')) /\
+    (forall k, In k (fst s') -> In k (fst s) \/ complete k s') /\
+    (forall k, In k (fst s') -> In k (fst s) \/ exists x, In x xs /\ clos_refl_trans name sedge x k) /\
+    (forall ev, In ev (snd s') -> In ev (snd s) \/ (exists x, In x xs /\ ev = mk x) \/ sound_ev (fst s') ev).
+
+  Lemma tfold_post mk f :
+    (forall x s, In x U -> unvis (fst s) < f -> tpost x s (trim_dfs K FB L f x s)) ->
+    forall xs s, (forall x, In x xs -> In x U) -> unvis (fst s) < f ->
+                 fpost mk xs s (tfold mk f xs s).
+  Proof.
+    intros Hcall xs. induction xs as [|x xs IH]; intros s HU Hf.
+    - simpl. unfold fpost, mono. repeat split; auto; simpl in *; contradiction.
+    - simpl. set (s1 := trim_dfs K FB L f x s).
+      destruct (Hcall x s (HU x (or_introl eq_refl)) Hf) as ([M1 M2] & T2 & T3 & T4 & T5).
+      fold s1 in M1, M2, T2, T3, T4, T5.
+      set (s1' := (fst s1, snd s1 ++ [mk x])).
+      assert (M11 : mono s1 s1') by (split; simpl; auto; intros; apply in_or_app; left; assumption).
+      assert (Hf1 : unvis (fst s1') < f) by (simpl; pose proof (unvis_mono _ _ M1); lia).
+      destruct (IH s1' (fun y Hy => HU y (or_intror Hy)) Hf1) as ([N1 N2] & F2 & F3 & F4 & F5).
+      fold (tfold mk f xs s1') in *. set (s2 := tfold mk f xs s1') in *.
+      unfold fpost, mono. repeat split.
+      + intros k Hk. apply N1. simpl. apply M1. exact Hk.
+      + intros ev Hev. apply N2. simpl. apply in_or_app. left. apply M2. exact Hev.
+      + destruct H as [<- | Hx]; [apply N1; exact T2 | apply F2; exact Hx].
+      + destruct H as [<- | Hx]; [apply N2; simpl; apply in_or_app; right; left; reflexivity | apply F2; exact Hx].
+      + intros k Hk. destruct (F3 k Hk) as [H | H]; [|right; exact H]. simpl in H.
+        destruct (T3 k H) as [H' | H']; [left; exact H' | right].
+        apply complete_mono with (s := s1'); [split; assumption|].
+        apply complete_mono with (s := s1); assumption.
+      + intros k Hk. destruct (F4 k Hk) as [H | [y [Hy Hr]]].
+        * simpl in H. destruct (T4 k H) as [H' | H']; [left; exact H' | right].
+          exists x. split; [left; reflexivity | exact H'].
+        * right. exists y. split; [right; exact Hy | exact Hr].
+      + intros ev Hev. destruct (F5 ev Hev) as [H | [[y [Hy E]] | H]].
+        * simpl in H. apply in_app_or in H as [H | [<- | []]].
+          -- destruct (T5 ev H) as [H' | H']; [left; exact H' | right; right].
+             eapply sound_mono; [|exact H']. intros k Hk. apply N1. exact Hk.
+          -- right. left. exists x. split; [left|]; reflexivity.
+        * right. left. exists y. split; [right; exact Hy | exact E].
+        * right. right. exact H.
+  Qed.
+
+  Lemma trim_dfs_post : forall f v s, In v U -> unvis (fst s) < f -> tpost v s (trim_dfs K FB L f v s).
+  Proof.
+    induction f as [|f IH]; intros v s HvU Hf; [lia|].
+    cbn [trim_dfs]. destruct (mem v (fst s)) eqn:Em.
+    - apply mem_In in Em. unfold tpost, mono. repeat split; auto.
+    - apply mem_false in Em.
+      set (s1 := (fst s ++ [v], snd s)).
+      assert (M01 : mono s s1) by (split; simpl; auto; intros; apply in_or_app; left; assumption).
+      assert (Hf1 : unvis (fst s1) < f) by (simpl; pose proof (unvis_lt (fst s) v HvU Em); lia).
+      fold (tfold (fun x => EFb (trim L v) (trim L x)) f (FB v) s1).
+      set (s2 := tfold (fun x => EFb (trim L v) (trim L x)) f (FB v) s1).
+      destruct (tfold_post (fun x => EFb (trim L v) (trim L x)) f IH (FB v) s1
+                           (fun x Hx => UF v x HvU Hx) Hf1) as ([A1 A2] & A3 & A4 & A5 & A6).
+      fold s2 in A1, A2, A3, A4, A5, A6.
+      assert (Hf2 : unvis (fst s2) < f) by (pose proof (unvis_mono _ _ A1); lia).
+      fold (tfold (fun c => EKid (trim L v) (trim L c)) f (K v) s2).
+      set (s3 := tfold (fun c => EKid (trim L v) (trim L c)) f (K v) s2).
+      destruct (tfold_post (fun c => EKid (trim L v) (trim L c)) f IH (K v) s2
+                           (fun x Hx => UK v x HvU Hx) Hf2) as ([B1 B2] & B3 & B4 & B5 & B6).
+      fold s3 in B1, B2, B3, B4, B5, B6.
+      assert (Hv3 : In v (fst s3)) by (apply B1, A1; simpl; apply in_or_app; right; left; reflexivity).
+      unfold tpost, mono. repeat split.
+      + intros k Hk. apply B1, A1. simpl. apply in_or_app. left. exact Hk.
+      + intros ev Hev. apply B2, A2. exact Hev.
+      + exact Hv3.
+      + intros k Hk. destruct (B4 k Hk) as [H | H]; [|right; exact H].
+        destruct (A4 k H) as [H' | H'].
+        * simpl in H'. apply in_app_or in H' as [H' | [<- | []]]; [left; exact H' | right].
+          split; intros x Hx.
+          -- destruct (A3 x Hx). split; [apply B1 | apply B2]; assumption.
+          -- apply B3. exact Hx.
+        * right. apply complete_mono with (s := s2); [split; assumption | exact H'].
+      + intros k Hk. destruct (B5 k Hk) as [H | [c [Hc Hr]]].
+        * destruct (A5 k H) as [H' | [x [Hx Hr]]].
+          -- simpl in H'. apply in_app_or in H' as [H' | [<- | []]]; [left; exact H' | right; apply rt_refl].
+          -- right. eapply rt_trans; [apply rt_step; left; exact Hx | exact Hr].
+        * right. eapply rt_trans; [apply rt_step; right; exact Hc | exact Hr].
+      + intros ev Hev. destruct (B6 ev Hev) as [H | [[c [Hc E]] | H]].
+        * destruct (A6 ev H) as [H' | [[x [Hx E]] | H']].
+          -- left. exact H'.
+          -- right. exists v. split; [exact Hv3 | left; exists x; auto].
+          -- right. eapply sound_mono; [|exact H']. exact B1.
+        * right. exists v. split; [exact Hv3 | right; exists c; auto].
+        * right. exact H.
+  Qed.
+
+  (* _trim_trees: the loop over the roots *)
+  Theorem trim_run_spec fuel rts :
+    (forall r, In r rts -> In r U) -> length U < fuel ->
+    let s := trim_run K FB L fuel rts in
+    (forall r, In r rts -> In r (fst s)) /\
+    (forall k, In k (fst s) -> complete k s) /\
+    (forall k, In k (fst s) -> exists r, In r rts /\ clos_refl_trans name sedge r k) /\
+    (forall ev, In ev (snd s) -> sound_ev (fst s) ev).
+  Proof.
+    intros HU Hfuel. unfold trim_run.
+    assert (G : forall rts s0, (forall r, In r rts -> In r U) -> unvis (fst s0) < fuel ->
+      let s := fold_left (fun s r => trim_dfs K FB L fuel r s) rts s0 in
+      mono s0 s /\ (forall r, In r rts -> In r (fst s)) /\
+      (forall k, In k (fst s) -> In k (fst s0) \/ complete k s) /\
+      (forall k, In k (fst s) -> In k (fst s0) \/ exists r, In r rts /\ clos_refl_trans name sedge r k) /\
+      (forall ev, In ev (snd s) -> In ev (snd s0) \/ sound_ev (fst s) ev)).
+    { clear rts HU. induction rts as [|r rts IH]; intros s0 HU Hf; simpl.
+      - unfold mono. repeat split; auto. intros r [].
+      - destruct (trim_dfs_post fuel r s0 (HU r (or_introl eq_refl)) Hf) as ([M1 M2] & T2 & T3 & T4 & T5).
+        set (s1 := trim_dfs K FB L fuel r s0) in *.
+        assert (Hf1 : unvis (fst s1) < fuel) by (pose proof (unvis_mono _ _ M1); lia).
+        destruct (IH s1 (fun y Hy => HU y (or_intror Hy)) Hf1) as ([N1 N2] & F2 & F3 & F4 & F5).
+        set (s2 := fold_left (fun s r => trim_dfs K FB L fuel r s) rts s1) in *.
+        unfold mono. repeat split; auto.
+        + intros x [<- | Hx]; [apply N1; exact T2 | apply F2; exact Hx].
+        + intros k Hk. destruct (F3 k Hk) as [H | H]; [|right; exact H].
+          destruct (T3 k H) as [H' | H']; [left; exact H' | right].
+          apply complete_mono with (s := s1); [split; assumption | exact H'].
+        + intros k Hk. destruct (F4 k Hk) as [H | [y [Hy Hr]]].
+          * destruct (T4 k H) as [H' | H']; [left; exact H' | right]. exists r. split; [left; reflexivity | exact H'].
+          * right. exists y. split; [right; exact Hy | exact Hr].
+        + intros ev Hev. destruct (F5 ev Hev) as [H | H]; [|right; exact H].
+          destruct (T5 ev H) as [H' | H']; [left; exact H' | right].
+          eapply sound_mono; [|exact H']. exact N1. }
+    assert (H0 : unvis (fst (([], []) : tst)) < fuel).
+    { unfold unvis. pose proof (filter_len_all (fun u => negb (mem u (fst (([], []) : tst)))) U). lia. }
+    destruct (G rts (@nil name, @nil tev) HU H0) as (_ & G2 & G3 & G4 & G5). simpl in *.
+    split; [exact G2|]. split; [|split].
+    - intros k Hk. destruct (G3 k Hk) as [[] | C]. exact C.
+    - intros k Hk. destruct (G4 k Hk) as [[] | Hr]. exact Hr.
+    - intros ev Hev. destruct (G5 ev Hev) as [[] | Hs]. exact Hs.
+  Qed.
+End TrimDfs.
